@@ -333,4 +333,14 @@ VARIANTS = [
             "        for field_type in self._template_spec.values():\n"
             "            size = field_type.calc_size()\n            if size is None:\n"
             "                return None\n            total += size\n        return total\n"},
+
+    # ---------------------------------------------------------------- round 7: normalising constructor hooks
+    {"name": "R9 name-value dataclass trims its value on construction", "file": "hippolyzer/lib/base/namevalue.py",
+     "expect": "C09.R9",
+     "old": "    def deserialize(self) -> Any:\n",
+     "new": "    def __post_init__(self):\n        self.value = self.value.strip()\n\n    def deserialize(self) -> Any:\n"},
+    {"name": "P R9 constructor hook that only prepares a non-serialized attribute", "file": "hippolyzer/lib/base/namevalue.py",
+     "expect": "silent",
+     "old": "    def deserialize(self) -> Any:\n",
+     "new": "    def __post_init__(self):\n        self._parsed_cache = None\n\n    def deserialize(self) -> Any:\n"},
 ]
